@@ -283,6 +283,18 @@ func (b *backendShim) List(ctx context.Context, r *etcdserverpb.RangeRequest) (*
 }
 
 func (b *backendShim) Count(ctx context.Context, r *etcdserverpb.RangeRequest) (*etcdserverpb.RangeResponse, error) {
+	if r.Revision > 0 {
+		// a count at an explicit revision is the size of the range read at that revision (which is
+		// refused below the compaction floor), not the count at the current revision
+		response, err := b.backend.List(ctx, &proto.RangeRequest{Key: r.Key, End: r.RangeEnd, Revision: uint64(r.Revision)})
+		if err != nil {
+			return nil, err
+		}
+		return &etcdserverpb.RangeResponse{
+			Header: txnHeader(int64(response.Header.Revision)),
+			Count:  int64(len(response.Kvs)),
+		}, nil
+	}
 	// transform count request from etcd protobuf to kube-brain protobuf
 	request := &proto.CountRequest{
 		Key: r.Key,
